@@ -95,6 +95,12 @@ def _theorems(ctx):
            note="expected violation")
     if rs.violated != "Inv_Cli":
         raise MachineryError(f"deviation Cli!PartialStdout: expected Inv_Cli, TLC says {rs.violated}")
+    rs = run_tlc("Surface", _cfg(["doc"], ["direct", "member"], 0, False, dev=["Ole!VectorCountLoop"], invariants=False),
+                 scratch=ctx.scratch, expect_fail=True, timeout=600)
+    ev.tlc("Surface as built (open finding KF-C01-01, deviation Ole!VectorCountLoop): Termination must fail", rs,
+           note="expected violation")
+    if rs.violated != "Temporal":
+        raise MachineryError(f"deviation Ole!VectorCountLoop: expected a liveness counterexample, TLC says {rs.violated}")
 
 
 # ------------------------------------------------------------------------------------- SurfaceGen cases
@@ -501,6 +507,10 @@ def _fuzz_jobs(ctx, kinds_all):
         mn = [rng.choice(names) if rng.random() < 0.5 else f"m{j}.{M.EXT[k]}" for j in range(rng.choice([1, 2, 3]))]
         add(rng.choice(["member", "rfmember", "climember", "attmember"]), k, {"seed": sid, "muts": [mut]},
             member_names=mn, members=len(mn), arch=rng.choice(["zip", "tar", "tar.gz", "tar.bz2", "tar.xz"]))
+    # ---- KF-C01-01: one deterministic witness of the open finding (costs one worker its CPU budget)
+    add("direct", "doc", {"seed": M.SEEDS["doc"][0], "muts": [["olevec", 0x7FFFFFFF]]})
+    # ... and the same shape below the domain's count: must simply succeed
+    add("direct", "doc", {"seed": M.SEEDS["doc"][0], "muts": [["olevec", 50000]]})
     # ---- the CLI in a fresh interpreter (real stdout / stderr / exit status)
     subs = []
     for i in range(160 if T else 10):
@@ -550,6 +560,15 @@ def run(ctx):
         fres = pool.run(fz_jobs + sub_jobs,
                         progress=lambda a, b: ctx.log(f"  fuzz {a}/{b}") if a % 5000 == 0 else None)
         ctx.log(f"fuzz executions done in {time.time() - t0:.1f}s")
+        killed = [i for i, r in enumerate(fres) if r.get("killed") == "Timeout"]
+        if killed:
+            dj = []
+            for i in killed:
+                j = dict((fz_jobs + sub_jobs)[i])
+                j["op"] = "oledom"
+                dj.append(j)
+            for i, r in zip(killed, pool.run(dj)):
+                fres[i]["dom"] = r.get("dom") if isinstance(r, dict) else None
     th.join()
     if "err" in box:
         raise box["err"]
@@ -581,12 +600,32 @@ def run(ctx):
     br = validate("SurfaceTrace", TRACE_CFG, ulist, scratch=ctx.scratch, parallel=12, min_chunk=150, timeout=1500,
                   diagnose=40)
     ev.tlc_counts("SurfaceTrace: distinct recorded exception flows validated", br.distinct, br.states, br.wall_s)
+    # ---- executions rejected by the reference design: does the AS-BUILT model (open finding on) explain them?
+    asbuilt = {}
+    cand = []
+    for t, m, ui in zip(all_traces, all_meta, index):
+        r = m["res"]
+        if not br.verdicts[ui].accepted and r.get("killed") == "Timeout" and isinstance(r.get("dom"), dict):
+            e = {"a": "Timeout", "k": m["desc"]["kind"]}
+            e.update(r["dom"])
+            cand.append((t["id"], {"id": t["id"], "hdr": {"x": 1}, "ev": [e]}))
+    if cand:
+        bra = validate("SurfaceTrace", TRACE_CFG.replace("Deviations = {}", 'Deviations = {"Ole!VectorCountLoop"}'),
+                       [c[1] for c in cand], scratch=ctx.scratch, parallel=2, min_chunk=50, timeout=600)
+        ev.tlc_counts("SurfaceTrace as built (Ole!VectorCountLoop on): killed executions in the finding's domain",
+                      bra.distinct, bra.states, bra.wall_s)
+        for (tid_, _), tv in zip(cand, bra.verdicts):
+            asbuilt[tid_] = tv.accepted
     n_ok = 0
     reported = {}
     for t, m, ui in zip(all_traces, all_meta, index):
         tv = br.verdicts[ui]
         if tv.accepted:
             n_ok += 1
+            continue
+        if asbuilt.get(t["id"]):
+            v.known("KF-C01-01", f"[{m['desc'].get('entry')}/{m['desc'].get('kind')}] input {m['desc'].get('src')} killed on its "
+                                 f"CPU budget; OLE property-set evidence {m['res'].get('dom')}", m["desc"])
             continue
         evs = t["ev"]
         r = m["res"]
